@@ -162,6 +162,20 @@ fn main() {
         }
         return;
     }
+    if args.len() >= 3 && args[1] == "parsetime" {
+        // developer view: wall time of the public parse entry point on a file (no printing)
+        let text = std::fs::read_to_string(&args[2]).expect("readable file");
+        let child = std::thread::Builder::new().stack_size(1 << 30).spawn(move || {
+            let t = std::time::Instant::now();
+            let p = oq3_syntax::SourceFile::parse(&text);
+            let parse_s = t.elapsed().as_secs_f64();
+            let n = p.syntax_node().descendants().count();
+            println!("bytes={} nodes={} errors={} parse_s={:.3}", text.len(), n, p.errors().len(), parse_s);
+            std::mem::forget(p);
+        });
+        child.unwrap().join().unwrap();
+        return;
+    }
     if args.len() >= 3 && args[1] == "sema" {
         let text = args[2].replace("\\n", "\n");
         let r = oq3_semantics::syntax_to_semantics::parse_source_string(&text, None);
